@@ -114,8 +114,8 @@ class Ctx:
 
 
 # views: 'orig' = as written; 's' = closures of iterator adaptors spliced into explicit loops;
-# 'i' = private helpers inlined; 'is' = both
-VIEWS = ['orig', 's', 'i', 'is']
+# 'i' = private helpers inlined; 'is' = both; 'p' = also the other functions of the same type inlined; 'ps'
+VIEWS = ['orig', 's', 'i', 'is', 'p', 'ps']
 
 
 def _run_one(ctx, rd, view):
